@@ -1,40 +1,69 @@
 #!/usr/bin/env python3
-"""Applies each seeded mutation under seeded/<name>/patch.diff to /repo, runs the quick check of its property
-(and optionally others), records the verdict in seeded/<name>/result.json, and reverts /repo."""
-import json, os, subprocess, sys, time
+"""Runs the quick check of a seeded mutation's property against the mutated source and records the verdict in
+seeded/<name>/result.json.  Default mode (--scratch): the mutation is applied in a scratch git worktree of /repo's
+HEAD and a private copy of /verif is pointed at it (VERIF_REPO), so /repo itself and the evidence files are never
+touched (needed while other work uses /repo concurrently).  --in-place applies the patch to /repo itself
+(git -C /repo apply), runs ./check in /verif and undoes it straight afterwards (git -C /repo checkout -- .)."""
+import json, os, shutil, subprocess, sys, tempfile, time
 ROOT = os.path.dirname(os.path.dirname(os.path.abspath(__file__)))
-names = sys.argv[1:] or sorted(os.listdir(os.path.join(ROOT, 'seeded')))
-for name in names:
-    d = os.path.join(ROOT, 'seeded', name)
-    patch = os.path.join(d, 'patch.diff')
-    if not os.path.exists(patch):
-        continue
-    pid = name.split('_')[0]
-    extra = json.load(open(os.path.join(d, 'meta.json'))).get('also_check', []) if os.path.exists(os.path.join(d, 'meta.json')) else []
-    st = subprocess.run(['git', '-C', '/repo', 'status', '--porcelain', '--untracked-files=no'], capture_output=True, text=True).stdout
-    if st.strip():
-        print('refusing: /repo has local changes'); sys.exit(2)
-    if subprocess.run(['git', '-C', '/repo', 'apply', '--check', patch]).returncode != 0:
-        print(name, 'PATCH DOES NOT APPLY'); continue
-    subprocess.run(['git', '-C', '/repo', 'apply', patch], check=True)
-    res = {}
-    # evidence files must come from runs on the unchanged tree: keep them aside while the mutant is checked
-    import shutil, tempfile
-    evdir = os.path.join(ROOT, 'evidence'); keep = tempfile.mkdtemp(prefix='evkeep')
-    for f in os.listdir(evdir):
-        shutil.copy(os.path.join(evdir, f), keep)
-    try:
-        for p in [pid] + extra:
-            if not os.path.exists(os.path.join(ROOT, 'tools', 'vlib', p.lower() + '.py')):
-                res[p] = 'no check yet'; continue
-            t = time.time()
-            r = subprocess.run([os.path.join(ROOT, 'check'), p, '--tier', 'quick'], cwd=ROOT, capture_output=True, text=True)
-            viol = [l for l in r.stdout.split('\n') if l.startswith('VIOLATION')]
-            res[p] = {'exit': r.returncode, 'violation_line': viol[0] if viol else None, 'wall_s': round(time.time() - t)}
-    finally:
-        subprocess.run(['git', '-C', '/repo', 'checkout', '--', '.'], check=True)
-        for f in os.listdir(keep):
-            shutil.copy(os.path.join(keep, f), evdir)
-        shutil.rmtree(keep, ignore_errors=True)
-    json.dump(res, open(os.path.join(d, 'result.json'), 'w'), indent=1)
-    print(name, {k: (v if isinstance(v, str) else ('CAUGHT' if v['exit'] == 1 else 'MISSED exit=%d' % v['exit'])) for k, v in res.items()})
+args = sys.argv[1:]
+in_place = '--in-place' in args
+names = [a for a in args if not a.startswith('--')] or sorted(os.listdir(os.path.join(ROOT, 'seeded')))
+SV = '/var/tmp/seedverif/verif'
+SR = '/var/tmp/seedrepo'
+
+def sh(*cmd, **kw):
+    return subprocess.run(list(cmd), capture_output=True, text=True, **kw)
+
+if not in_place:
+    os.makedirs(SV, exist_ok=True)
+    sh('rsync', '-a', '--delete', '--exclude', '.cache', '--exclude', '.git', '--exclude', 'replays', '--exclude', 'seeded',
+       ROOT + '/', SV + '/')
+    sh('git', '-C', '/repo', 'worktree', 'remove', '--force', SR); sh('git', '-C', '/repo', 'worktree', 'prune')
+    r = sh('git', '-C', '/repo', 'worktree', 'add', '--detach', SR, 'HEAD')
+    if r.returncode != 0:
+        print(r.stderr); sys.exit(2)
+repo = '/repo' if in_place else SR
+verif = ROOT if in_place else SV
+try:
+    for name in names:
+        d = os.path.join(ROOT, 'seeded', name)
+        patch = os.path.join(d, 'patch.diff')
+        if not os.path.exists(patch):
+            continue
+        pid = name.split('_')[0]
+        meta = json.load(open(os.path.join(d, 'meta.json'))) if os.path.exists(os.path.join(d, 'meta.json')) else {}
+        if sh('git', '-C', repo, 'status', '--porcelain', '--untracked-files=no').stdout.strip():
+            print('refusing: %s has local changes' % repo); sys.exit(2)
+        if sh('git', '-C', repo, 'apply', '--check', patch).returncode != 0:
+            print(name, 'PATCH DOES NOT APPLY'); continue
+        sh('git', '-C', repo, 'apply', patch)
+        keep = None
+        if in_place:
+            keep = tempfile.mkdtemp(prefix='evkeep')
+            for f in os.listdir(os.path.join(ROOT, 'evidence')):
+                shutil.copy(os.path.join(ROOT, 'evidence', f), keep)
+        res = {}
+        try:
+            for p in [pid] + meta.get('also_check', []):
+                if not os.path.exists(os.path.join(verif, 'tools', 'vlib', p.lower() + '.py')):
+                    res[p] = 'no check yet'; continue
+                t = time.time()
+                env = dict(os.environ)
+                if not in_place:
+                    env['VERIF_REPO'] = SR
+                r = subprocess.run([os.path.join(verif, 'check'), p, '--tier', 'quick'], cwd=verif, capture_output=True, text=True, env=env)
+                viol = [l for l in r.stdout.split('\n') if l.startswith('VIOLATION')]
+                res[p] = {'exit': r.returncode, 'violation_line': viol[0] if viol else None, 'wall_s': round(time.time() - t),
+                          'mode': 'in-place' if in_place else 'scratch worktree'}
+        finally:
+            sh('git', '-C', repo, 'checkout', '--', '.')
+            if keep:
+                for f in os.listdir(keep):
+                    shutil.copy(os.path.join(keep, f), os.path.join(ROOT, 'evidence'))
+                shutil.rmtree(keep, ignore_errors=True)
+        json.dump(res, open(os.path.join(d, 'result.json'), 'w'), indent=1)
+        print(name, {k: (v if isinstance(v, str) else ('CAUGHT' if v['exit'] == 1 else 'MISSED exit=%d' % v['exit'])) for k, v in res.items()}, flush=True)
+finally:
+    if not in_place:
+        sh('git', '-C', '/repo', 'worktree', 'remove', '--force', SR)
